@@ -227,7 +227,7 @@ impl Property for C14 {
         proptest::collection::vec(any::<u16>(), 0..(max_ops * 8 + 8))
             .prop_map(move |genes| {
                 let mut g = Genes::new(genes);
-                let cfg = HistCfg { max_ops, safe_strings: true, w_struct: 9, w_attr: 3, w_chardata: 2, w_create: 5, huge_offsets: false, max_doc: 5 };
+                let cfg = HistCfg { max_ops, safe_strings: true, w_struct: 9, w_attr: 3, w_chardata: 2, w_create: 5, huge_offsets: false, max_doc: 5, w_compound: 5 };
                 hist::gen_history(&mut g, &cfg)
             })
             .boxed()
